@@ -68,7 +68,7 @@ def replay(path):
     return 2
 
 
-def native_eval(c):
+def native_eval(c, tier="quick"):
     t0 = time.time()
     r = {"name": c["name"], "kind": "native", "backend": "native-eval", "status": "undecided", "reason": "",
          "obligations": 0, "discharged": 0, "failures": [], "trusted": ["rustc codegen of the real crates (native-eval executes the real function)"],
@@ -78,7 +78,11 @@ def native_eval(c):
     except Exception as e:
         r["reason"] = str(e)
         return r
-    p = subprocess.run([exe, "eval", c["task"]], capture_output=True, text=True, timeout=c.get("timeout", 600))
+    task = c["task"]
+    if tier == "thorough" and c.get("thorough_task"):
+        task = c["thorough_task"]
+        r["cmd"] = "verif-replay eval " + task
+    p = subprocess.run([exe, "eval", task], capture_output=True, text=True, timeout=c.get("timeout", 600))
     for ln in p.stdout.splitlines():
         if ln.startswith("RESULT "):
             j = json.loads(ln[7:])
